@@ -205,7 +205,7 @@ fn fail(out: &mut TrialOut, name: &str, clause: &str, scalar: &str, t: u64, got:
     );
 }
 
-fn run_f64(vi: usize, shape: Shape, seed: u64, len: u64, warm: &[f64], out: &mut TrialOut) {
+fn run_f64(vi: usize, shape: Shape, seed: u64, len: u64, warm: &[f64], units: f64, out: &mut TrialOut) {
     let name = NAMES[vi];
     let cell = format!("{}/f64", name);
     let mut v = build_plain::<f64>(&spec_of(vi, warm));
@@ -214,7 +214,8 @@ fn run_f64(vi: usize, shape: Shape, seed: u64, len: u64, warm: &[f64], out: &mut
     let mut worst = 0f64;
     for t in 0..len {
         let k = s.next();
-        let x = k as f64 / 64.0;
+        // (units: an exact power of two, 1 unless the view is scale-free)
+        let x = k as f64 / 64.0 * units;
         b.push(k);
         let Ok(got) = guarded(|| {
             v.update(x);
@@ -342,7 +343,7 @@ impl Monitor for C13 {
             let shape = if idx == main { Shape::Walk } else { Shape::PeaksAndTroughs };
             let seed = rng.next();
             out.key(mix(hash_str(&format!("verylong{}", vi)), seed));
-            run_f64(vi, shape, seed, (1u64 << 24) + (1u64 << 18), &[], out);
+            run_f64(vi, shape, seed, (1u64 << 24) + (1u64 << 18), &[], 1.0, out);
             return;
         }
         let vi = (idx % 3) as usize;
@@ -365,11 +366,19 @@ impl Monitor for C13 {
         if !warm.is_empty() {
             out.count("trials_with_a_view_constructed_over_an_inner_view_that_already_has_a_history", 1);
         }
+        // Drawdown and LnReturn are ratios: one f64 trial in three quotes the stream (and the inner
+        // view's earlier history) in units of 2^-70, 2^-300 or 2^200 - exact scalings, so the expected
+        // outputs are the same numbers; an absolute threshold on a peak or a price is not scale-free
+        let units = if vi >= 1 && rep % 4 >= 1 && rng.chance(1, 3) { 2f64.powi(*rng.pick(&[-70, -300, -70, 200])) } else { 1.0 };
+        if units != 1.0 {
+            out.count("ratio_view_trials_in_other_units(2^-300, 2^-70, 2^200)", 1);
+        }
+        let warm: Vec<f64> = warm.iter().map(|w| w * units).collect();
         match rep % 4 {
             0 => run_exact(vi, shape, seed, cfg.tier.pick(1_200, 3_000), &warm, out),
-            1 => run_f64(vi, shape, seed, l, &warm, out),
-            2 => run_f64(vi, shape, seed, 4 * l, &warm, out),
-            _ => run_f64(vi, shape, seed, 16 * l, &warm, out),
+            1 => run_f64(vi, shape, seed, l, &warm, units, out),
+            2 => run_f64(vi, shape, seed, 4 * l, &warm, units, out),
+            _ => run_f64(vi, shape, seed, 16 * l, &warm, units, out),
         }
         if idx % 5 == 0 {
             out.sample(format!("{} on stream shape {:?} seed {} (values k/64 in [1,1000]), repetition {} (0: exact scalar; 1..3: f64 at L, 4L, 16L with L = {})", NAMES[vi], shape, seed, rep % 4, l));
@@ -384,7 +393,7 @@ impl Monitor for C13 {
         v
     }
     fn rule(&self) -> String {
-        "trial = (WelfordRolling | Drawdown | LnReturn; stream shape: reflected walk, peaks after deeper troughs, repeated equal peaks, monotone runs, long flat stretches, three decades, a high level with a small spread (990 + up to 1/32, 5/16 or 10), 2^41 + {0..3} on at most 16 000 values; seed; length). After every update: mean()/variance()/last() vs exact mean and population variance/std of all values so far (integer-scaled sums in i128), Drawdown vs the largest (peak_j - x_j)/peak_j over all j with the running peak, LnReturn vs ln(x_t/x_(t-1)). A third of the trials construct the view over an Echo that has already been given 1..4 values (the definitions are over the values delivered to the view). Equality at the exact scalar (1.2e3 / 3e3 values); at f64 tolerance 1e-11 of scale (observed on the unchanged tree: 6e-14; Drawdown 1e-12, LnReturn 1e-14) at every step of streams of L, 4L and 16L values (L = 2e4 quick, 6e5 thorough: 16L = 3.2e5 / ~1e7), the same tolerance at every length. distinct = distinct (view, shape, seed, length)".into()
+        "trial = (WelfordRolling | Drawdown | LnReturn; stream shape: reflected walk, peaks after deeper troughs, repeated equal peaks, monotone runs, long flat stretches, three decades, a high level with a small spread (990 + up to 1/32, 5/16 or 10), 2^41 + {0..3} on at most 16 000 values; seed; length). After every update: mean()/variance()/last() vs exact mean and population variance/std of all values so far (integer-scaled sums in i128), Drawdown vs the largest (peak_j - x_j)/peak_j over all j with the running peak, LnReturn vs ln(x_t/x_(t-1)). A third of the trials construct the view over an Echo that has already been given 1..4 values (the definitions are over the values delivered to the view); a third of the f64 trials of Drawdown and LnReturn quote the stream in units of 2^-300, 2^-70 or 2^200. Equality at the exact scalar (1.2e3 / 3e3 values); at f64 tolerance 1e-11 of scale (observed on the unchanged tree: 6e-14; Drawdown 1e-12, LnReturn 1e-14) at every step of streams of L, 4L and 16L values (L = 2e4 quick, 6e5 thorough: 16L = 3.2e5 / ~1e7), the same tolerance at every length. distinct = distinct (view, shape, seed, length)".into()
     }
     fn assumptions(&self) -> Vec<String> {
         vec!["positive inputs k/64 in [1, 1000]".into(), "'any length' restated as: the same tolerance holds at L, 4L, 16L".into()]
